@@ -1,10 +1,33 @@
-import QuiverModel.Core.Builtins.Integer
+import QuiverModel.Core.Builtins.Dispatch
+import QuiverModel.Lemmas.Bytes.Basic
+import QuiverModel.Lemmas.Bytes.Cons
+import QuiverModel.Lemmas.Bytes.Find
+import QuiverModel.Lemmas.Builtins.Refine
+import QuiverModel.Lemmas.Builtins.Window
+import QuiverModel.Lemmas.Builtins.SetField
+import QuiverModel.Lemmas.Builtins.Shift
+import QuiverModel.Lemmas.Builtins.VectorRefine
+import QuiverModel.Lemmas.Builtins.IntegerBits
+import QuiverModel.Lemmas.Builtins.DispatchTotal
 /-
-C12 — Builtins are total and agree with simple reference models. Property theorems only.
+C12 — Builtins are total and agree with simple reference models. Property theorems only
+(helper lemmas live in `Lemmas/Bytes/*`, `Lemmas/Builtins/*`).
 Naming: every theorem is `C12.<name>`; the audit lists them by scanning this file.
+
+Reading guide
+  * `Rope.Stored r`  — `r` is a rope as the executor heap stores them: well-formed (`WF`: cached
+    lengths right, windows inside parents, nothing exceeds `usize`) and `len ≤ MAX_BINARY_SIZE`.
+    `stored_*` theorems: every constructor builtin produces stored ropes from stored ropes.
+  * `r.bytes`        — the flat content (reference semantics of a rope).
+  * `RefinesBin o s` — model outcome `o` (rope, may `panic`) refines the flat reference outcome `s`:
+    same error class, or a *stored* rope with exactly the specified content; `panic` refines nothing.
+  * `Spec.*`         — plain reference models: flat bytes, unbounded integers, documented domain
+    as an explicit condition, `InvalidArgument` outside.
+  For every builtin `b`: `b_refines` (agreement with the reference on every argument),
+  `builtins_total` (never `panic`, all arguments, all names), `b_shape_independent`.
 -/
 namespace C12
-open QM QM.Builtins
+open QM QM.Builtins QM.Bytes QM.Bytes.Rope
 
 /-! ## Arbitrary-precision arithmetic: total, exact, clean errors exactly at the documented domain -/
 
@@ -128,5 +151,460 @@ theorem integer_bitwise_clean_error (a b : Int) (h : ¬ FitsI64 a ∨ ¬ FitsI64
         Outcome.map, Outcome.bind, and_self]
     · simp only [integerAnd, integerOr, integerXor, integerShift, two64, toI64_err ha, Outcome.map,
         Outcome.bind, and_self]
+
+
+/-- `integer_shift` on i64 operands: positive amounts multiply by `2^amount` and wrap to an i64,
+    negative amounts are floor division by `2^|amount|` (arithmetic shift) — for every amount,
+    including |amount| ≥ 64. -/
+theorem integer_shift_spec (v a : Int) (hv : FitsI64 v) (ha : FitsI64 a) :
+    integerShift v a = .ok (if a ≥ 0 then Int.bmod (v * 2 ^ a.toNat) (2 ^ 64) else v / 2 ^ (-a).toNat) :=
+  integerShift_eq v a hv ha
+
+example : FitsI64 (-3) ∧ FitsI64 (-70) ∧ integerShift (-3) (-70) = .ok (-1) := by decide
+
+/-- `integer_popcount` counts the one bits of the 64-bit two's-complement word. -/
+theorem integer_popcount_spec (a : Int) (h : FitsI64 a) :
+    integerPopcount a = .ok (Int.ofNat
+      (((List.range 64).map fun i => ((BitVec.ofInt 64 a).getLsbD i).toNat).sum)) :=
+  integerPopcount_eq a h
+
+theorem integer_popcount_clean_error (a : Int) (h : ¬ FitsI64 a) :
+    integerPopcount a = .err .invalidArgument ∧ integerNot a = .err .invalidArgument := by
+  simp only [integerPopcount, integerNot, toI64_err h, Outcome.map, Outcome.bind, and_self]
+
+/-- **The integer family is total**: for every registry name of the family and every argument
+    whatsoever (any magnitude, ill-typed ones included) the outcome is a value or a clean error. -/
+theorem integer_family_total (name : String) (arg : BArg) (o : Outcome BArg)
+    (h : callInteger name arg = some o) : o ≠ .panic :=
+  callInteger_total name arg o h
+
+/-! ## M-Bytes: the rope is its flat content
+
+The functions of `binary.rs` on well-formed ropes never panic and are the list operations on
+`r.bytes`; the smart constructors preserve well-formedness. -/
+
+/-- `len_toVec`: `to_vec` succeeds, yields the content, and `len` is its length. -/
+theorem len_toVec (r : Rope) (h : r.WF) : r.toVec = .ok r.bytes ∧ r.len = r.bytes.length :=
+  ⟨h.toVec_eq, h.len_eq⟩
+
+/-- `byteAt_toVec`: `byte_at` is indexing into the content (`none` exactly past the end). -/
+theorem byteAt_toVec (r : Rope) (h : r.WF) (i : Nat) : r.byteAt i = .ok r.bytes[i]? := h.byteAt_eq i
+
+/-- the byte iterator yields exactly the content -/
+theorem iter_toVec (r : Rope) (h : r.WF) : r.iter = .ok r.bytes := h.iter_eq
+
+/-- `findByte_spec`: `find_byte` returns the first occurrence at or after the offset — on every
+    rope shape, including the partial-first-unit logic of `Tiled`. -/
+theorem findByte_spec (r : Rope) (h : r.WF) (b : UInt8) (off : Nat) :
+    ∃ res, r.findByte b off = .ok res ∧ res = Rope.findFrom r.bytes b off ∧
+      (∀ i, res = some i → off ≤ i ∧ r.bytes[i]? = some b ∧ ∀ j, off ≤ j → j < i → r.bytes[j]? ≠ some b) ∧
+      (res = none → ∀ j, off ≤ j → r.bytes[j]? ≠ some b) := by
+  refine ⟨_, h.findByte_eq b off, rfl, ?_, ?_⟩
+  · intro i hi
+    have := findFrom_isFirst r.bytes b off
+    rw [hi] at this; exact this
+  · intro hn
+    have := findFrom_isFirst r.bytes b off
+    rw [hn] at this; exact this
+
+/-- `slice_toVec`: `BinaryData::slice` succeeds exactly on in-range windows (no overflow for any
+    offset/length), and the result is a well-formed rope denoting the window. -/
+theorem slice_toVec (p : Rope) (hp : p.WF) (off l : Nat) :
+    (off + l ≤ p.len → ∃ r, Rope.mkSlice p off l = some r ∧ r.WF ∧ r.len = l ∧
+        r.toVec = .ok ((p.bytes.drop off).take l)) ∧
+    (¬ off + l ≤ p.len → Rope.mkSlice p off l = none) := by
+  constructor
+  · intro h
+    obtain ⟨r, hr, hw, hb, hl⟩ := mkSlice_some hp h
+    exact ⟨r, hr, hw, hl, by rw [hw.toVec_eq, hb]⟩
+  · exact mkSlice_none
+
+/-- `BinaryData::concat`: panics (debug) exactly when the total length overflows `usize`;
+    otherwise a well-formed rope denoting the concatenation. -/
+theorem concat_toVec (l r : Rope) (hl : l.WF) (hr : r.WF) :
+    (l.len + r.len < 18446744073709551616 → ∃ c, Rope.mkConcat l r = .ok c ∧ c.WF ∧
+        c.toVec = .ok (l.bytes ++ r.bytes)) ∧
+    (¬ l.len + r.len < 18446744073709551616 → Rope.mkConcat l r = .panic) := by
+  constructor
+  · intro h
+    obtain ⟨c, hc, hw, hb, _⟩ := mkConcat_ok hl hr h
+    exact ⟨c, hc, hw, by rw [hw.toVec_eq, hb]⟩
+  · exact mkConcat_panic
+
+/-- `tiled_toVec`: `BinaryData::tiled` never overflows: its cached length is the *saturating*
+    product (the F4 repair), and when the product fits it is a well-formed rope denoting `count`
+    copies of the unit. -/
+theorem tiled_toVec (u : Rope) (hu : u.WF) (c : Nat) :
+    (Rope.mkTiled u c).len = satMul u.len c ∧
+    (u.len * c < 18446744073709551616 → (Rope.mkTiled u c).WF ∧
+        (Rope.mkTiled u c).toVec = .ok (Rope.tile u.bytes c)) := by
+  refine ⟨mkTiled_len hu c, fun h => ?_⟩
+  obtain ⟨hw, hb⟩ := mkTiled_spec hu h
+  exact ⟨hw, by rw [hw.toVec_eq, hb]⟩
+
+/-- a concrete non-trivial stored rope: `concat(slice(owned), tiled(owned))` -/
+example : (Rope.concat (.slice (.owned [9, 1, 2, 9]) 1 2) (.tiled (.owned [3, 4]) 3) 8).Stored ∧
+    (Rope.concat (.slice (.owned [9, 1, 2, 9]) 1 2) (.tiled (.owned [3, 4]) 3) 8).bytes
+      = [1, 2, 3, 4, 3, 4, 3, 4] := by decide
+
+/-- `materialize` (in-place flattening on read) is content preserving and leaves a stored rope. -/
+theorem materialize_spec (r : Rope) (h : r.Stored) :
+    materialize r = .ok (r.bytes, .owned r.bytes) ∧ (Rope.owned r.bytes).Stored ∧
+      (Rope.owned r.bytes).bytes = r.bytes := by
+  refine ⟨materialize_eq h.1, ⟨?_, ?_⟩, rfl⟩
+  · have := h.length_le; simp only [Rope.WF]; omega
+  · simpa [Rope.len] using h.length_le
+
+/-! ## Binary family: agreement with the reference model on **every** argument
+
+Each theorem covers the whole argument space: inside the documented domain the result is the
+reference value (and a stored rope), outside it is the clean `InvalidArgument`. -/
+
+theorem binary_new_refines (size : Int) : RefinesBin (binaryNew size) (Spec.binaryNew size) :=
+  binaryNew_refines size
+
+theorem binary_length_spec (r : Rope) (h : r.WF) : binaryLength r = .ok (Int.ofNat r.bytes.length) :=
+  binaryLength_eq h
+
+theorem binary_concat_refines (a b : Rope) (ha : a.Stored) (hb : b.Stored) :
+    RefinesBin (binaryConcat a b) (Spec.binaryConcat a.bytes b.bytes) := binaryConcat_refines ha hb
+
+/-- `binary_repeat` for **every** count: the reference repeats when `0 ≤ count < 2^64` and the
+    product is within the size limit; any other count — `2^63`, `2^64 - 1`, beyond — is the clean
+    `InvalidArgument` (no overflow: defect F4, commit 258da96). -/
+theorem binary_repeat_refines (r : Rope) (hr : r.Stored) (count : Int) :
+    RefinesBin (binaryRepeat r count) (Spec.binaryRepeat r.bytes count) := binaryRepeat_refines hr count
+
+example : (Rope.owned [0xaa, 0xbb]).Stored ∧
+    binaryRepeat (.owned [0xaa, 0xbb]) 9223372036854775808 = .err .invalidArgument := by decide
+
+theorem binary_and_refines (a b : Rope) (ha : a.Stored) (hb : b.Stored) :
+    RefinesBin (binaryAnd a b) (.ok (List.zipWith (· &&& ·) a.bytes b.bytes)) := binaryAnd_refines ha hb
+
+theorem binary_or_refines (a b : Rope) (ha : a.Stored) (hb : b.Stored) :
+    RefinesBin (binaryOr a b) (.ok (Spec.padZip (· ||| ·) a.bytes b.bytes)) := padZip_refines _ ha hb
+
+theorem binary_xor_refines (a b : Rope) (ha : a.Stored) (hb : b.Stored) :
+    RefinesBin (binaryXor a b) (.ok (Spec.padZip (· ^^^ ·) a.bytes b.bytes)) := padZip_refines _ ha hb
+
+theorem binary_not_refines (r : Rope) (hr : r.Stored) :
+    RefinesBin (binaryNot r) (.ok (r.bytes.map (~~~ ·))) := binaryNot_refines hr
+
+/-- `binary_index`: on `0 ≤ byte ≤ 255`, `0 ≤ offset < 2^64` the first occurrence (or nil) in the
+    content — see `findByte_spec` for the characterisation of `findFrom`; clean error otherwise. -/
+theorem binary_index_spec (r : Rope) (hr : r.WF) (byte off : Int) :
+    binaryIndex r byte off = Spec.binaryIndex r.bytes byte off := binaryIndex_eq hr byte off
+
+theorem binary_slice_refines (r : Rope) (hr : r.Stored) (start stop : Int) :
+    RefinesBin (binarySlice r start stop) (Spec.binarySlice r.bytes start stop) :=
+  binarySlice_refines hr start stop
+
+theorem binary_popcount_spec (r : Rope) (hr : r.Stored) :
+    binaryPopcount r = .ok (Int.ofNat (Spec.popcount r.bytes)) := binaryPopcount_eq hr
+
+/-- `binary_hash32` is FNV-1a (32 bit) of the content, with the constants of the source. -/
+theorem binary_hash32_spec (r : Rope) (hr : r.WF) :
+    binaryHash32 r = .ok (Int.ofNat (fnv1a32 fnv32Offset fnv32Prime r.bytes)) := binaryHash32_eq hr
+
+/-- `binary_hash64` is FNV-1a (64 bit) of the content reinterpreted as a signed word. -/
+theorem binary_hash64_spec (r : Rope) (hr : r.WF) :
+    binaryHash64 r = .ok (let h := fnv1a64 fnv64Offset fnv64Prime r.bytes
+      if h ≥ 9223372036854775808 then (h : Int) - 18446744073709551616 else (h : Int)) :=
+  binaryHash64_eq hr
+
+/-- `binary_append` on its documented domain appends `nb` bytes … -/
+theorem binary_append_refines (r : Rope) (hr : r.Stored) (value nb : Int) :
+    RefinesBin (binaryAppend r value nb) (Spec.binaryAppend r.bytes value nb) :=
+  binaryAppend_refines hr value nb
+
+/-- … which are the big-endian representation of the value. -/
+theorem binary_append_bytes (n x : Nat) (h : x < 256 ^ n) :
+    (beBytes n x).length = n ∧ Spec.beNat (beBytes n x) = x := ⟨length_beBytes n x, beNat_beBytes_of_lt h⟩
+
+/-- **`binary_get`** for every argument: inside the window condition the `nb`-bit big-endian field
+    of the whole content read as one number — also for 64-bit fields at bit offsets 1..7, which
+    span nine bytes (defect F2, commit 3563f23) — and the clean `InvalidArgument` otherwise, also
+    when `byte_offset * 8` exceeds a `usize` (defect F4). -/
+theorem binary_get_spec (r : Rope) (hr : r.Stored) (bo bi nb : Int) :
+    binaryGet r bo bi nb = Spec.binaryGet r.bytes bo bi nb := binaryGet_eq hr bo bi nb
+
+/-- the F2 reproducer, on the model and on the reference -/
+example : binaryGet (.owned [1, 2, 3, 4, 5, 6, 7, 8, 9, 10]) 0 4 64 = .ok 0x1020304050607080 ∧
+    Spec.InWindow 10 0 4 64 := by decide
+
+/-- **`binary_shift`** refines the flat algorithm for every amount … -/
+theorem binary_shift_refines (r : Rope) (hr : r.Stored) (amt : Int) :
+    RefinesBin (binaryShift r amt) (Spec.binaryShift r.bytes amt) := binaryShift_refines hr amt
+
+/-- … whose meaning is the logical shift of the content read as one big-endian number of
+    `8 * length` bits: multiplication by `2^amt` modulo `2^(8 * length)` to the left, division by
+    `2^|amt|` to the right — for **every** amount (a shift by `2^32` gives zeros: defect F1,
+    commit 90ea795), and the length is preserved. -/
+theorem binary_shift_value (v : List UInt8) (amt : Int) :
+    (Spec.shiftBytes v amt).length = v.length ∧
+    Spec.beNat (Spec.shiftBytes v amt) = Spec.shiftValue v amt :=
+  ⟨length_shiftBytes v amt, beNat_shiftBytes v amt⟩
+
+example : binaryShift (.owned [0xff, 0x00]) 4294967296 = .ok (.owned [0, 0]) ∧
+    Spec.shiftBytes [0xff, 0x00] 4294967296 = [0, 0] := by decide
+
+/-- **`binary_set`** refines the flat algorithm on every argument (domain: a window inside the
+    content and a value of at most `nb` bits that is an `i64`). -/
+theorem binary_set_refines (r : Rope) (hr : r.Stored) (bo bi value nb : Int) :
+    RefinesBin (binarySet r bo bi value nb) (Spec.binarySet r.bytes bo bi value nb) :=
+  binarySet_refines hr bo bi value nb
+
+/-- Full-strength numeric statement for `binary_set` (NOT yet proved): the result denotes the old
+    number with the field replaced. What is proved is `binary_set_refines` (agreement with the
+    flat 128-bit read-modify-write `Spec.setBytes`, hence totality and shape independence) and
+    `binary_set_length_partial`; the bitwise identity `(cur &&& ~field) ||| (v <<< k) =
+    cur - old * 2^k + v * 2^k` on `Nat` is missing. The differential checks it on every run
+    against an independent big-integer oracle in the harness. -/
+def binary_set_value_Statement : Prop :=
+  ∀ (v : List UInt8) (bo bi value nb : Int), Spec.SetDomain v.length bo bi value nb →
+    Spec.beNat (Spec.setBytes v bo.toNat bi.toNat value.toNat nb.toNat) = Spec.setValue v bo bi value nb
+
+/-- the result of `binary_set` has the length of its argument -/
+theorem binary_set_length_partial (v : List UInt8) (bo bi value nb : Nat)
+    (h : 8 * bo + bi + nb ≤ 8 * v.length) (hnb : 1 ≤ nb) :
+    (Spec.setBytes v bo bi value nb).length = v.length := by
+  unfold Spec.setBytes
+  simp only [List.length_append, List.length_take, List.length_drop, length_beBytes]
+  omega
+
+/-! ## Vector family -/
+
+/-- `vector_add/subtract/multiply`: the exact lane-wise result when every lane fits the width,
+    nil when one does not or the buffers are ragged / of different length, clean error for a width
+    other than 4 or 8. -/
+theorem vector_add_refines (a b : Rope) (ha : a.Stored) (hb : b.Stored) (w : Int) :
+    RefinesOptBin (vectorAdd a b w) (Spec.elementwise (· + ·) a.bytes b.bytes w) :=
+  elementwise_refines _ ha hb w
+theorem vector_subtract_refines (a b : Rope) (ha : a.Stored) (hb : b.Stored) (w : Int) :
+    RefinesOptBin (vectorSubtract a b w) (Spec.elementwise (· - ·) a.bytes b.bytes w) :=
+  elementwise_refines _ ha hb w
+theorem vector_multiply_refines (a b : Rope) (ha : a.Stored) (hb : b.Stored) (w : Int) :
+    RefinesOptBin (vectorMultiply a b w) (Spec.elementwise (· * ·) a.bytes b.bytes w) :=
+  elementwise_refines _ ha hb w
+
+theorem vector_less_than_refines (a b : Rope) (ha : a.Stored) (hb : b.Stored) (w : Int) :
+    RefinesOptBin (vectorLessThan a b w) (Spec.compare (fun x y => decide (x < y)) a.bytes b.bytes w) :=
+  compare_refines _ ha hb w
+theorem vector_equal_refines (a b : Rope) (ha : a.Stored) (hb : b.Stored) (w : Int) :
+    RefinesOptBin (vectorEqual a b w) (Spec.compare (fun x y => decide (x = y)) a.bytes b.bytes w) :=
+  compare_refines _ ha hb w
+theorem vector_greater_than_refines (a b : Rope) (ha : a.Stored) (hb : b.Stored) (w : Int) :
+    RefinesOptBin (vectorGreaterThan a b w) (Spec.compare (fun x y => decide (x > y)) a.bytes b.bytes w) :=
+  compare_refines _ ha hb w
+
+theorem vector_take_refines (d m : Rope) (hd : d.Stored) (hm : m.Stored) (w : Int) :
+    RefinesOptBin (vectorTake d w m) (Spec.vectorTake d.bytes w m.bytes) := vectorTake_refines hd hm w
+
+/-- **`vector_get`** for every index: the lane when `0 ≤ index < lanes` on a non-ragged buffer, nil
+    otherwise — including index `2^64 - 1`, where `index + 1` used to overflow (defect F3,
+    commit acc840c) — clean error for a bad width. -/
+theorem vector_get_spec (r : Rope) (hr : r.Stored) (w i : Int) :
+    vectorGet r w i = Spec.vectorGet r.bytes w i := vectorGet_eq hr w i
+
+example : vectorGet (.owned [0, 0, 0, 0, 0, 0, 0, 0]) 4 18446744073709551615 = .ok none := by decide
+
+theorem vector_push_refines (r : Rope) (hr : r.Stored) (w v : Int) :
+    RefinesOptBin (vectorPush r w v) (Spec.vectorPush r.bytes w v) := vectorPush_refines hr w v
+
+theorem vector_sum_spec (r : Rope) (hr : r.Stored) (w : Int) :
+    vectorSum r w = Spec.vectorSum r.bytes w := vectorSum_eq hr w
+
+theorem vector_dot_spec (a b : Rope) (ha : a.Stored) (hb : b.Stored) (w : Int) :
+    vectorDot a b w = Spec.vectorDot a.bytes b.bytes w := vectorDot_eq ha hb w
+
+/-! ## Totality: no builtin ever panics -/
+
+/-- **Every modelled pure builtin is total**: whatever the registry name and whatever the argument
+    — any integer magnitudes, ill-typed or wrong-arity arguments included — the outcome of the
+    dispatcher is a value or a clean error, never `panic`, provided the binaries inside the
+    argument are ropes as the heap stores them (every rope shape). -/
+theorem builtins_total (name : String) (arg : BArg) (h : arg.Stored) (o : Outcome BArg)
+    (ho : callBuiltin name arg = some o) : o ≠ .panic := by
+  unfold callBuiltin at ho
+  cases hi : callInteger name arg with
+  | some oi => rw [hi] at ho; cases ho; exact callInteger_total name arg _ hi
+  | none =>
+    rw [hi] at ho; simp only at ho
+    cases hb : callBinary name arg with
+    | some ob => rw [hb] at ho; cases ho; exact callBinary_total name arg h _ hb
+    | none => rw [hb] at ho; exact callVector_total name arg h _ ho
+
+/-- the hypothesis is satisfiable by a non-trivial argument (a rope with all five node kinds) -/
+example : (BArg.tup [.bin (.concat (.slice (.owned [9, 1, 2, 9]) 1 2) (.tiled (.zeroed 2) 3) 8), .int (2 ^ 64)]).Stored := by
+  intro f hf
+  simp only [List.mem_cons, List.not_mem_nil, or_false] at hf
+  rcases hf with rfl | rfl
+  · show Rope.Stored _; decide
+  · trivial
+
+/-- the dispatcher answers for exactly the listed names -/
+theorem modelled_names_complete :
+    ∀ n ∈ modelledNames, (callBuiltin n (.int 0)).isSome = true := by decide
+
+/-! ## Results are stored ropes again (the heap invariant is preserved) -/
+
+theorem stored_result {o : Outcome Rope} {s : Outcome (List UInt8)} (h : RefinesBin o s)
+    (r : Rope) (hr : o = .ok r) : r.Stored := by
+  subst hr; cases s <;> first | exact h.1 | exact h.elim
+
+theorem stored_result_opt {o : Outcome (Option Rope)} {s : Outcome (Option (List UInt8))}
+    (h : RefinesOptBin o s) (r : Rope) (hr : o = .ok (some r)) : r.Stored := by
+  subst hr
+  cases s with
+  | ok v => cases v with
+    | some v => exact h.1
+    | none => exact h.elim
+  | err _ => exact h.elim
+  | panic => exact h.elim
+
+/-! ## Shape independence: results depend on the content of a binary only
+
+Two stored ropes of equal content give the same outcome (same integer / nil / error class, and
+result ropes of equal content) — for every builtin taking a binary. -/
+
+theorem shape_independent_bin {f : Rope → Outcome Rope} {s : List UInt8 → Outcome (List UInt8)}
+    (h : ∀ r, r.Stored → RefinesBin (f r) (s r.bytes))
+    (r₁ r₂ : Rope) (h₁ : r₁.Stored) (h₂ : r₂.Stored) (he : r₁.bytes = r₂.bytes) :
+    (f r₁).map Rope.bytes = (f r₂).map Rope.bytes :=
+  RefinesBin.same (h r₁ h₁) (he ▸ h r₂ h₂)
+
+theorem shape_independent_bin2 {f : Rope → Rope → Outcome Rope}
+    {s : List UInt8 → List UInt8 → Outcome (List UInt8)}
+    (h : ∀ a b, a.Stored → b.Stored → RefinesBin (f a b) (s a.bytes b.bytes))
+    (a₁ a₂ b₁ b₂ : Rope) (ha₁ : a₁.Stored) (ha₂ : a₂.Stored) (hb₁ : b₁.Stored) (hb₂ : b₂.Stored)
+    (hea : a₁.bytes = a₂.bytes) (heb : b₁.bytes = b₂.bytes) :
+    (f a₁ b₁).map Rope.bytes = (f a₂ b₂).map Rope.bytes :=
+  RefinesBin.same (h a₁ b₁ ha₁ hb₁) (hea ▸ heb ▸ h a₂ b₂ ha₂ hb₂)
+
+theorem shape_independent_opt2 {f : Rope → Rope → Outcome (Option Rope)}
+    {s : List UInt8 → List UInt8 → Outcome (Option (List UInt8))}
+    (h : ∀ a b, a.Stored → b.Stored → RefinesOptBin (f a b) (s a.bytes b.bytes))
+    (a₁ a₂ b₁ b₂ : Rope) (ha₁ : a₁.Stored) (ha₂ : a₂.Stored) (hb₁ : b₁.Stored) (hb₂ : b₂.Stored)
+    (hea : a₁.bytes = a₂.bytes) (heb : b₁.bytes = b₂.bytes) :
+    (f a₁ b₁).map (Option.map Rope.bytes) = (f a₂ b₂).map (Option.map Rope.bytes) :=
+  RefinesOptBin.same (h a₁ b₁ ha₁ hb₁) (hea ▸ heb ▸ h a₂ b₂ ha₂ hb₂)
+
+section shape
+variable (r₁ r₂ a₁ a₂ b₁ b₂ : Rope)
+  (h₁ : r₁.Stored) (h₂ : r₂.Stored) (he : r₁.bytes = r₂.bytes)
+  (ha₁ : a₁.Stored) (ha₂ : a₂.Stored) (hb₁ : b₁.Stored) (hb₂ : b₂.Stored)
+  (hea : a₁.bytes = a₂.bytes) (heb : b₁.bytes = b₂.bytes)
+include h₁ h₂ he
+
+theorem binary_length_shape_independent : binaryLength r₁ = binaryLength r₂ := by
+  rw [binaryLength_eq h₁.1, binaryLength_eq h₂.1, he]
+theorem binary_repeat_shape_independent (c : Int) :
+    (binaryRepeat r₁ c).map Rope.bytes = (binaryRepeat r₂ c).map Rope.bytes :=
+  shape_independent_bin (f := fun r => binaryRepeat r c) (s := fun v => Spec.binaryRepeat v c)
+    (fun _ hr => binaryRepeat_refines hr c) r₁ r₂ h₁ h₂ he
+theorem binary_not_shape_independent : (binaryNot r₁).map Rope.bytes = (binaryNot r₂).map Rope.bytes :=
+  shape_independent_bin (f := binaryNot) (s := fun v => .ok (v.map (~~~ ·))) (fun _ hr => binaryNot_refines hr) r₁ r₂ h₁ h₂ he
+theorem binary_shift_shape_independent (amt : Int) :
+    (binaryShift r₁ amt).map Rope.bytes = (binaryShift r₂ amt).map Rope.bytes :=
+  shape_independent_bin (f := fun r => binaryShift r amt) (s := fun v => Spec.binaryShift v amt)
+    (fun _ hr => binaryShift_refines hr amt) r₁ r₂ h₁ h₂ he
+theorem binary_set_shape_independent (bo bi v nb : Int) :
+    (binarySet r₁ bo bi v nb).map Rope.bytes = (binarySet r₂ bo bi v nb).map Rope.bytes :=
+  shape_independent_bin (f := fun r => binarySet r bo bi v nb) (s := fun x => Spec.binarySet x bo bi v nb)
+    (fun _ hr => binarySet_refines hr bo bi v nb) r₁ r₂ h₁ h₂ he
+theorem binary_slice_shape_independent (s e : Int) :
+    (binarySlice r₁ s e).map Rope.bytes = (binarySlice r₂ s e).map Rope.bytes :=
+  shape_independent_bin (f := fun r => binarySlice r s e) (s := fun v => Spec.binarySlice v s e)
+    (fun _ hr => binarySlice_refines hr s e) r₁ r₂ h₁ h₂ he
+theorem binary_append_shape_independent (v nb : Int) :
+    (binaryAppend r₁ v nb).map Rope.bytes = (binaryAppend r₂ v nb).map Rope.bytes :=
+  shape_independent_bin (f := fun r => binaryAppend r v nb) (s := fun x => Spec.binaryAppend x v nb)
+    (fun _ hr => binaryAppend_refines hr v nb) r₁ r₂ h₁ h₂ he
+theorem binary_get_shape_independent (bo bi nb : Int) : binaryGet r₁ bo bi nb = binaryGet r₂ bo bi nb := by
+  rw [binaryGet_eq h₁, binaryGet_eq h₂, he]
+theorem binary_index_shape_independent (b o : Int) : binaryIndex r₁ b o = binaryIndex r₂ b o := by
+  rw [binaryIndex_eq h₁.1, binaryIndex_eq h₂.1, he]
+theorem binary_popcount_shape_independent : binaryPopcount r₁ = binaryPopcount r₂ := by
+  rw [binaryPopcount_eq h₁, binaryPopcount_eq h₂, he]
+theorem binary_hash_shape_independent :
+    binaryHash32 r₁ = binaryHash32 r₂ ∧ binaryHash64 r₁ = binaryHash64 r₂ := by
+  rw [binaryHash32_eq h₁.1, binaryHash32_eq h₂.1, binaryHash64_eq h₁.1, binaryHash64_eq h₂.1, he]
+  exact ⟨rfl, rfl⟩
+theorem vector_get_shape_independent (w i : Int) : vectorGet r₁ w i = vectorGet r₂ w i := by
+  rw [vectorGet_eq h₁, vectorGet_eq h₂, he]
+theorem vector_sum_shape_independent (w : Int) : vectorSum r₁ w = vectorSum r₂ w := by
+  rw [vectorSum_eq h₁, vectorSum_eq h₂, he]
+theorem vector_push_shape_independent (w v : Int) :
+    (vectorPush r₁ w v).map (Option.map Rope.bytes) = (vectorPush r₂ w v).map (Option.map Rope.bytes) :=
+  RefinesOptBin.same (vectorPush_refines h₁ w v) (he ▸ vectorPush_refines h₂ w v)
+end shape
+
+section shape2
+variable (a₁ a₂ b₁ b₂ : Rope)
+  (ha₁ : a₁.Stored) (ha₂ : a₂.Stored) (hb₁ : b₁.Stored) (hb₂ : b₂.Stored)
+  (hea : a₁.bytes = a₂.bytes) (heb : b₁.bytes = b₂.bytes)
+include ha₁ ha₂ hb₁ hb₂ hea heb
+
+theorem binary_concat_shape_independent :
+    (binaryConcat a₁ b₁).map Rope.bytes = (binaryConcat a₂ b₂).map Rope.bytes :=
+  shape_independent_bin2 (f := binaryConcat) (s := Spec.binaryConcat)
+    (fun _ _ ha hb => binaryConcat_refines ha hb) a₁ a₂ b₁ b₂ ha₁ ha₂ hb₁ hb₂ hea heb
+theorem binary_and_shape_independent :
+    (binaryAnd a₁ b₁).map Rope.bytes = (binaryAnd a₂ b₂).map Rope.bytes :=
+  shape_independent_bin2 (f := binaryAnd) (s := fun x y => .ok (Spec.binaryAnd x y))
+    (fun _ _ ha hb => binaryAnd_refines ha hb) a₁ a₂ b₁ b₂ ha₁ ha₂ hb₁ hb₂ hea heb
+theorem binary_or_shape_independent :
+    (binaryOr a₁ b₁).map Rope.bytes = (binaryOr a₂ b₂).map Rope.bytes :=
+  shape_independent_bin2 (f := binaryOr) (s := fun x y => .ok (Spec.padZip (· ||| ·) x y))
+    (fun _ _ ha hb => padZip_refines _ ha hb) a₁ a₂ b₁ b₂ ha₁ ha₂ hb₁ hb₂ hea heb
+theorem binary_xor_shape_independent :
+    (binaryXor a₁ b₁).map Rope.bytes = (binaryXor a₂ b₂).map Rope.bytes :=
+  shape_independent_bin2 (f := binaryXor) (s := fun x y => .ok (Spec.padZip (· ^^^ ·) x y))
+    (fun _ _ ha hb => padZip_refines _ ha hb) a₁ a₂ b₁ b₂ ha₁ ha₂ hb₁ hb₂ hea heb
+theorem vector_elementwise_shape_independent (f : Int → Int → Int) (w : Int) :
+    (elementwise (checked f) a₁ b₁ w).map (Option.map Rope.bytes)
+      = (elementwise (checked f) a₂ b₂ w).map (Option.map Rope.bytes) :=
+  shape_independent_opt2 (f := fun a b => elementwise (checked f) a b w)
+    (s := fun x y => Spec.elementwise f x y w) (fun _ _ ha hb => elementwise_refines f ha hb w) a₁ a₂ b₁ b₂ ha₁ ha₂ hb₁ hb₂ hea heb
+theorem vector_compare_shape_independent (p : Int → Int → Bool) (w : Int) :
+    (compare p a₁ b₁ w).map (Option.map Rope.bytes) = (compare p a₂ b₂ w).map (Option.map Rope.bytes) :=
+  shape_independent_opt2 (f := fun a b => compare p a b w) (s := fun x y => Spec.compare p x y w)
+    (fun _ _ ha hb => compare_refines p ha hb w) a₁ a₂ b₁ b₂ ha₁ ha₂ hb₁ hb₂ hea heb
+theorem vector_take_shape_independent (w : Int) :
+    (vectorTake a₁ w b₁).map (Option.map Rope.bytes) = (vectorTake a₂ w b₂).map (Option.map Rope.bytes) :=
+  shape_independent_opt2 (f := fun d m => vectorTake d w m) (s := fun d m => Spec.vectorTake d w m)
+    (fun _ _ ha hb => vectorTake_refines ha hb w) a₁ a₂ b₁ b₂ ha₁ ha₂ hb₁ hb₂ hea heb
+theorem vector_dot_shape_independent (w : Int) : vectorDot a₁ b₁ w = vectorDot a₂ b₂ w := by
+  rw [vectorDot_eq ha₁ hb₁, vectorDot_eq ha₂ hb₂, hea, heb]
+end shape2
+
+/-! ## Clean errors: outside the documented domain the answer is `InvalidArgument` -/
+
+theorem binary_get_clean_error (r : Rope) (hr : r.Stored) (bo bi nb : Int)
+    (h : ¬ Spec.InWindow r.bytes.length bo bi nb) : binaryGet r bo bi nb = .err .invalidArgument := by
+  rw [binaryGet_eq hr]; unfold Spec.binaryGet; rw [if_neg h]
+
+theorem binary_set_clean_error (r : Rope) (hr : r.Stored) (bo bi v nb : Int)
+    (h : ¬ Spec.SetDomain r.bytes.length bo bi v nb) : binarySet r bo bi v nb = .err .invalidArgument := by
+  have := binarySet_refines hr bo bi v nb
+  unfold Spec.binarySet at this; rw [if_neg h] at this
+  cases hb : binarySet r bo bi v nb <;> rw [hb] at this
+  · exact this.elim
+  · exact congrArg _ this
+  · exact this.elim
+
+theorem binary_shift_clean_error (r : Rope) (hr : r.Stored) (amt : Int) (h : ¬ FitsI64 amt) :
+    binaryShift r amt = .err .invalidArgument := by
+  have := binaryShift_refines hr amt
+  unfold Spec.binaryShift at this; rw [if_neg h] at this
+  cases hb : binaryShift r amt <;> rw [hb] at this
+  · exact this.elim
+  · exact congrArg _ this
+  · exact this.elim
+
+theorem vector_width_clean_error (r : Rope) (hr : r.Stored) (w i : Int) (h : ¬ Spec.WidthOK w) :
+    vectorGet r w i = .err .invalidArgument ∧ vectorSum r w = .err .invalidArgument := by
+  rw [vectorGet_eq hr, vectorSum_eq hr]; unfold Spec.vectorGet Spec.vectorSum
+  rw [if_neg h, if_neg h]; exact ⟨rfl, rfl⟩
 
 end C12
